@@ -85,11 +85,11 @@ theorem evaluateInternal_congr (C : Comparator) {σ σ' : Dict Expr} (h : SameAs
     cases rep with
     | none =>
       simp only [evaluateInternal]
-      rw [evaluateConstraints_congr C h, evaluateInternalList_congr C h fn ch path,
+      rw [evaluateConstraints_congr _ h, evaluateInternalList_congr C h fn ch path,
           evaluatePorts_congr h, evaluateResources_congr h, hf]
     | some rp =>
       simp only [evaluateInternal]
-      rw [evaluateConstraints_congr C h, evaluateInternalList_congr C h fn ch path,
+      rw [evaluateConstraints_congr _ h, evaluateInternalList_congr C h fn ch path,
           evaluatePorts_congr h, evaluateResources_congr h, hf, Repetition.substituteSymbols_congr h]
 theorem evaluateInternalList_congr (C : Comparator) {σ σ' : Dict Expr} (h : SameAssignment σ σ') (fn : Expr → Expr) :
     ∀ (cs : List CRoutine) (path : String), evaluateInternalList C σ fn path cs = evaluateInternalList C σ' fn path cs
